@@ -271,6 +271,9 @@ def _reuse(spec, info, ham, rhs, y, h, rec, feats, J, n):
     for i in range(5):
         yi = (y * (1 + 0.2 * rng.standard_normal(n))).astype(dt_)
         _, (dT, dY) = shared(r, t0, yi, {}, np.asarray(h, dtype=dt_))
+        if float(dT) != float(h):
+            rec.bump("reuse_step_shortened")
+            break
         y1 = yi + dY
         ref = fresh(yi, h)
         unit = 1e3 * 2.3e-16 * (1 + float(np.max(np.abs(ref)))) if info["explicit"] else 1e3 * 1e-12 * (1 + float(np.max(np.abs(ref))))
@@ -282,6 +285,9 @@ def _reuse(spec, info, ham, rhs, y, h, rec, feats, J, n):
             break
         # step back to the same time with -h: the next probe starts at t0 again from a different state
         _, (dT2, dY2) = shared(r, np.asarray(t0 + dT, dtype=dt_), y1, {}, np.asarray(-h, dtype=dt_))
+        if float(dT2) != -float(dT):
+            rec.bump("reuse_back_step_shortened")      # the stage iteration of the way back did not converge at -h: another map, nothing to compare
+            break
         back = float(np.max(np.abs(y1 + dY2 - yi)))
         if back > unit * 10:
             rec.violate("time_reversibility", "step_h_then_minus_h_does_not_return", dict(feats, probe=i, reused=True), err=back, unit=unit * 10)
